@@ -97,6 +97,9 @@ func cmdVC(args []string) {
 				bad++
 			}
 			fmt.Printf("%s %-8s %-7s %5dms %s\n", mark, o.Status, o.Solver, o.Ms, o.Name)
+			if !o.OK() && o.Solver == "dataflow" && o.Model != "" {
+				fmt.Println("     why:", truncate(o.Model, 1200))
+			}
 			if o.Witness != "" {
 				fmt.Printf("     witness: %s confirmed=%v\n", o.Witness, o.WitnessConfirmed)
 				if !o.WitnessConfirmed {
